@@ -48,9 +48,9 @@ def _mk_linear(dt, bias=True, fin=6, fout=4):
     return m.to(dt)
 
 
-def _mk_conv(dt, bias=True):
+def _mk_conv(dt, bias=True, padding_mode="zeros"):
     torch.manual_seed(0)
-    m = nn.Conv2d(2, 3, 2, padding=1, bias=bias)
+    m = nn.Conv2d(2, 3, 2, padding=1, bias=bias, padding_mode=padding_mode)
     for k, p in enumerate(m.parameters()):
         models._fill(p, k)
     return m.to(dt)
@@ -93,7 +93,11 @@ def _twin_forward(qm, fm, x_leaf, aname):
     if isinstance(fm, nn.Linear):
         y = F.linear(xin, w_leaf, b_leaf)
     else:
-        y = F.conv2d(xin, w_leaf, b_leaf, fm.stride, fm.padding, fm.dilation, fm.groups)
+        if fm.padding_mode != "zeros":
+            xin = F.pad(xin, fm._reversed_padding_repeated_twice, mode=fm.padding_mode)
+            y = F.conv2d(xin, w_leaf, b_leaf, fm.stride, (0, 0), fm.dilation, fm.groups)
+        else:
+            y = F.conv2d(xin, w_leaf, b_leaf, fm.stride, fm.padding, fm.dilation, fm.groups)
     return y, w_leaf, b_leaf
 
 
@@ -144,10 +148,11 @@ def _jac_task(task, out):
     if task["kind"] == "jac_linear":
         variants = [("lin", shape, bias) for shape in ((6,), (2, 6), (2, 2, 6), (1, 2, 2, 6)) for bias in (True, False)]
     else:
-        variants = [("conv", (1, 2, 3, 3), True), ("conv", (2, 2, 2, 3), False), ("conv", (2, 3, 3), True)]  # the last one is an un-batched (C,H,W) input
+        variants = [("conv", (1, 2, 3, 3), True), ("conv", (2, 2, 2, 3), False), ("conv", (2, 3, 3), True),  # the last one is an un-batched (C,H,W) input
+                    ("conv_reflect", (1, 2, 3, 3), True)]
     for mk, xshape, bias in variants:
-        for frozen in (False, True):
-            fm = _mk_linear(dt, bias) if mk == "lin" else _mk_conv(dt, bias)
+        for frozen in (False, True, "reloaded"):
+            fm = _mk_linear(dt, bias) if mk == "lin" else _mk_conv(dt, bias, "reflect" if mk == "conv_reflect" else "zeros")
             qm = _quantize_single(fm, wname, aname)
             x0 = _input(xshape, dt)
             if aname:
@@ -157,6 +162,13 @@ def _jac_task(task, out):
                 qm.output_scale = (yy.abs().max().to(torch.float64) / num.float8.QMAX[aname]).to(dt)
             if frozen:
                 qm.freeze()
+            if frozen == "reloaded":
+                # a frozen module obtained by loading a frozen state_dict with assign=True into a fresh quantized module
+                holder = nn.Sequential(qm)
+                sd = holder.state_dict()
+                qm2 = _quantize_single(fm, wname, aname)
+                nn.Sequential(qm2).load_state_dict(sd, assign=True)
+                qm = qm2
             K = fm.weight.numel() // fm.weight.shape[0]
             try:
                 xt = x0.clone().requires_grad_(True)
@@ -168,7 +180,7 @@ def _jac_task(task, out):
                 c = [mk, list(xshape), bias, frozen, gname]
                 if only and only != c:
                     continue
-                fields = {"kind": task["kind"], "weights": wname, "activations": aname, "dtype": dtname, "frozen": frozen, "grad": gname.rstrip("0123456789"), "rank": len(xshape)}
+                fields = {"kind": task["kind"], "weights": wname, "activations": aname, "dtype": dtname, "frozen": str(frozen), "grad": gname.rstrip("0123456789"), "rank": len(xshape)}
                 case = dict(task, only=c)
                 journal(repr(case))
                 out["evals"] += 1
@@ -194,14 +206,14 @@ def _jac_task(task, out):
                     out["violations"].append(violation(PID, case, dict(fields, sub="backward_raised"), f"backward_raised: {c} w={wname} a={aname} {dtname}: {type(e).__name__}: {str(e)[:200]}"))
                     continue
                 msgs = []
-                msgs.append(_cmp(xq.grad, xt.grad, exact, K, u, "grad_input"))
+                msgs.append(_cmp(xq.grad, xt.grad, exact and mk != "conv_reflect", K, u, "grad_input"))
                 if frozen:
                     from optimum.quanto import QTensor
 
                     if qm.weight.grad is not None:
                         msgs.append("frozen_weight_grad: a frozen (quantized) weight received a gradient")
                 else:
-                    msgs.append(_cmp(qm.weight.grad, w_leaf.grad, exact, xq.numel() // K if mk == "lin" else xq.numel(), u, "grad_weight"))
+                    msgs.append(_cmp(qm.weight.grad, w_leaf.grad, exact and mk != "conv_reflect", xq.numel() // K if mk == "lin" else xq.numel(), u, "grad_weight"))
                 if bias:
                     msgs.append(_cmp(qm.bias.grad, b_leaf.grad, exact, yt.numel(), u, "grad_bias"))
                 for sc in (qm.input_scale, qm.output_scale):
